@@ -246,6 +246,15 @@ def gen_token(x, tag, fam):
         eq = b'=' * fam[1]
         return (b'[' + eq + b'[' + b + b'\n' + b + b']' + eq + b']',
                 lexer.TokString, b + b'\n' + b)
+    if fam[0] == 'longblank':
+        # ... with a blank line inside
+        x.assume(And(c != 93, c != 10, c != 13))
+        eq = b'=' * fam[1]
+        return (b'[' + eq + b'[' + b + b'\n\n' + b + b']' + eq + b']',
+                lexer.TokString, b + b'\n\n' + b)
+    if fam[0] == 'blockblank':
+        x.assume(And(c != 93, c != 10, c != 13))
+        return (b'--[[' + b + b'\n\n' + b + b']]', lexer.TokComment, None)
     if fam[0] == 'block':
         x.assume(c != 93)
         return (b'--[[' + b + b']]', lexer.TokComment, None)
@@ -261,7 +270,7 @@ def gen_token(x, tag, fam):
 
 
 FAMILIES = [('long', 0), ('long', 1), ('long', 2), ('longnl', 0),
-            ('longnl', 1), ('block',), ('quoted', 34), ('quoted', 39),
+            ('longnl', 1), ('longblank', 0), ('blockblank',), ('block',), ('quoted', 34), ('quoted', 39),
             ('name',), ('number',)]
 
 
